@@ -48,8 +48,8 @@ def select(rel, selector):
     parts = [p.strip() for p in selector.split(' / ')]
     found = None
     for pi, part in enumerate(parts):
-        kind, _, name = part.partition(' ')
-        name = rs.norm(name)
+        mk = re.match(r'^([a-z_]+)\s*(.*)$', part, re.S)
+        kind, name = mk.group(1), rs.norm(mk.group(2))
         cands = []
         for lo, hi in scopes:
             for it in rs.split_items(s, lo, hi):
@@ -83,7 +83,7 @@ def select(rel, selector):
 
 CFG_TRUTH = {'target_family="wasm"': False, 'not(target_family="wasm")': True, 'test': False,
              'target_family = "wasm"': False, 'not(target_family = "wasm")': True}
-KEEP_DERIVES_ALWAYS = {'PartialEq', 'Eq', 'Copy', 'Debug', 'Hash'}
+KEEP_DERIVES_ALWAYS = {'PartialEq', 'Eq', 'Copy', 'Hash'}
 
 
 def strip_attrs(text, log, keep_derive=True):
@@ -289,17 +289,19 @@ def raw_idents(text, log):
 
 def name_return(sig, log, rname='r'):
     """T1: `-> T` => `-> (r: T)` on a function signature (text up to, excluding, the body brace)."""
-    # find the last '->' at bracket depth 0
-    depth = 0
+    # the return arrow is the `->` that directly follows the parameter list (not one inside a where clause)
     arrow = None
     toks = list(rs.tokens(sig))
+    fn_seen = False
     for idx, (j, t) in enumerate(toks):
-        if t in '([{':
-            depth += 1
-        elif t in ')]}':
-            depth -= 1
-        elif t == '-' and depth == 0 and sig[j:j + 2] == '->':
-            arrow = j
+        if t == 'fn':
+            fn_seen = True
+        elif fn_seen and t == '(':
+            close = rs.match_close(sig, j)
+            rest_toks = [(jj, tt) for (jj, tt) in toks if jj > close]
+            if len(rest_toks) >= 2 and rest_toks[0][1] == '-' and sig[rest_toks[0][0]:rest_toks[0][0] + 2] == '->':
+                arrow = rest_toks[0][0]
+            break
     if arrow is None:
         return sig
     rest = sig[arrow + 2:]
